@@ -345,6 +345,16 @@ pub fn run_batch(cfg: &BatchCfg, known: &[KnownFinding]) -> BatchOut {
                 for v in res.violations {
                     if !v.props.contains(&cfg.prop) {
                         *o.foreign_rule_hits.entry(v.rule.clone()).or_insert(0) += 1;
+                        // Debugging aid: keep the inputs of runs that hit a rule of another property.
+                        if let Ok(dir) = std::env::var("VERIF_FOREIGN_DUMP") {
+                            let doc = json!({
+                                "property": cfg.prop.name(), "tier": cfg.tier.name(), "base_seed": "0",
+                                "run_index": index, "run_seed": seed.to_string(), "minimised": false,
+                                "plan": res.plan, "choices": res.choices,
+                                "violation": {"rule": v.rule, "detail": v.detail}, "trace_hash": format!("{:016x}", st.trace_hash),
+                            });
+                            let _ = std::fs::write(format!("{dir}/foreign-{}-{}.json", cfg.prop.name(), seed), doc.to_string());
+                        }
                         continue;
                     }
                     if let Some(k) = match_known(&known, cfg.prop, &v) {
